@@ -22,7 +22,9 @@
 //
 // Put this file into /repo/rest/httpx/ (package httpx) of a scratch worktree and run
 //   go test -vet=off -count=1 -run TestC08DottedKey -v ./rest/httpx/
-// Expected on the pinned tree: all four tests FAIL.
+// Expected on /repo before c661af9: all four tests FAIL; since c661af9 (header unmarshaler WithOpaqueKeys)
+// TestC08DottedKeyHeader passes, the other three still FAIL (harness classes dep-through-dotted-key and
+// dotted-key-takes-top-level-member).
 package httpx
 
 import (
